@@ -103,12 +103,19 @@ def build(flavours):
                         os.unlink(os.path.join(BUILDROOT, fl, n + '.o'))
                     except OSError:
                         pass
-                if missing and all(n.endswith('_mnode') for n in missing):
+                if missing and all(n.startswith('fleet_') for n in missing) and len(missing) < len(names):
                     r3 = subprocess.run(base + ['SKIP=' + ' '.join(missing)], stdout=subprocess.PIPE, stderr=subprocess.STDOUT, text=True)
                     if r3.returncode == 0:
                         errs = [l for l in r2.stdout.splitlines() if ' error' in l][:12]
-                        BUILD_NOTES['move_only_compile_failure'] = {'flavour': fl, 'units': missing, 'errors': errs}
-                        log('note: move-only instantiations do not compile (%s): %s' % (fl, ', '.join(missing)))
+                        if all(n.endswith('_mnode') for n in missing):
+                            BUILD_NOTES['move_only_compile_failure'] = {'flavour': fl, 'units': missing, 'errors': errs}
+                            log('note: move-only instantiations do not compile (%s): %s' % (fl, ', '.join(missing)))
+                        else:
+                            # The fleet compiles against the tree the checks were built for; a grammar that stops
+                            # compiling (typically: the table or automaton construction now fails in constant
+                            # evaluation) is a change of the library's behaviour on a documented-valid grammar.
+                            BUILD_NOTES['fleet_compile_failure'] = {'flavour': fl, 'units': missing, 'errors': errs}
+                            log('note: fleet grammars do not compile (%s): %s' % (fl, ', '.join(missing)))
                         with open(stamp, 'w') as f:
                             f.write(digest)
                         continue
@@ -403,6 +410,16 @@ def main():
         else:
             log('crash at index %s (%s flavour) did not reproduce on replay (rc=%s)' % (c['index'], c['flavour'], rrc))
             trouble.append('unreproduced crash')
+
+    if 'fleet_compile_failure' in BUILD_NOTES:
+        n = BUILD_NOTES['fleet_compile_failure']
+        path = os.path.join(outdir, 'replay_%s_fleet_grammar_does_not_compile_%d.json' % (prop, seed))
+        with open(path, 'w') as f:
+            json.dump({'property': prop, 'class': 'fleet_grammar_does_not_compile', 'detail': 'the fleet grammar(s) ' + ', '.join(n['units']) +
+                       ' no longer compile against this tree (their parser objects cannot be constructed)', 'compiler_errors': n['errors'],
+                       'reproduce': 'make -C sim FLAVOUR=%s REPO=%s' % (n['flavour'], REPO)}, f, indent=1)
+        violations.append((n['flavour'], {'property': prop, 'class': 'fleet_grammar_does_not_compile',
+                                          'detail': 'a fleet grammar does not compile: ' + '; '.join(n['errors'][:2]), 'replay': path, 'plan': None, 'pre_gated': True}))
 
     if prop == 'C14' and 'move_only_compile_failure' in BUILD_NOTES:
         n = BUILD_NOTES['move_only_compile_failure']
